@@ -207,3 +207,182 @@ Proof.
   - by exists ord_max; exact: ex_cut.
   - by exists ord0; exact: ex_kept.
 Qed.
+
+(* ======================================================================================== *)
+(* Extension (round 3): fit as ONE function of the data.
+   Model/Ridge2FoldFit.v (guards, scoring=None, fold choice, shapes; shared by the binary64 run)
+   and Model/Ridge2FoldFitMx.v: [fit_mx a q w] is the result of
+   Ridge2FoldCV(alphas, alpha_type, regularization_method, cv, scoring).fit(X, y) followed by
+   predict(Xnew): [inl e] when a guard rejects the configuration, otherwise [inr r] with the
+   attributes cv_values_, alpha_, best_score_, coef_ and the prediction.
+     a : the data X, y, Xnew and how the folds are chosen ([CvKFold k]: the model computes the
+         first yield of an unshuffled KFold(k) itself; [CvGiven splits]: what cv.split yields);
+         [X_fold1 a] = X[fold1_idx] etc. ([take_rows]);
+     q : the np.linalg.svd results (oracle); [data_hyps] says they ARE singular value
+         decompositions of X[fold1_idx], X[fold2_idx], X, that rcond >= 0, the grid is non-empty
+         and - for alpha_type "absolute" only - non-negative;
+     w : scorer (arbitrary function), alphas, regularization_method (0 "tikhonov", 1 "cutoff",
+         other numbers: unknown strings), alpha_type (0 "absolute", 1 "relative"), rcond.
+   [explicit_fit U S V y cutoff rcond alpha W]: W solves the (regularised) normal equations of
+   the rank-truncated matrix and lies in its row space (C10_reg_solution_minimises,
+   C10_cutoff_min_norm say what that means; C10_truncation_error how far the truncated matrix
+   is from the data). *)
+From Verif Require Import Ridge2FoldFit Ridge2FoldFitMx Ridge2FoldFitListP Ridge2FoldFitP Ridge2FoldFitEx.
+
+(* the rejection branches of fit: which configurations raise, and which of the three errors
+   (the guards are tested in the order of the code); a relative grid that is accepted lies in
+   [0, 1) *)
+Theorem C10_fit_outcome :
+  forall (F : rcfType) (a : r2f_data F) (q : r2f_oracles a) (w : r2f_params F (a_t a)),
+    match fit_mx q w return Prop with
+    | inl ErrMethod => (1 < p_method w)%N
+    | inl ErrAlphaType => (p_method w <= 1)%N /\ (1 < p_atype w)%N
+    | inl ErrRelativeRange =>
+        [/\ (p_method w <= 1)%N, p_atype w = 1%N & has (fun x => (x < 0) || (1 <= x)) (p_alphas w)]
+    | inr _ =>
+        [/\ (p_method w <= 1)%N, (p_atype w <= 1)%N
+          & p_atype w = 1%N -> all (fun x => (0 <= x) && (x < 1)) (p_alphas w)]
+    end.
+Proof. exact: fit_mx_outcome. Qed.
+Print Assumptions C10_fit_outcome.
+
+(* fold choice for cv=None/shuffle=False, an integer cv or an unshuffled KFold object: the first
+   yield of KFold(k).split on n samples is (fold 1, fold 2) = ([h, n), [0, h)) with
+   h = ceil(n / k); every sample occurs exactly once; both folds are non-empty *)
+Theorem C10_kfold_first_split :
+  forall n k : nat, (2 <= k)%coq_nat -> (k <= n)%coq_nat ->
+    let h := kfold_h n k in
+    let f1 := fst (kfold_first n k) in
+    let f2 := snd (kfold_first n k) in
+    f2 = List.seq 0 h /\ f1 = List.seq h (n - h)%coq_nat /\ List.app f2 f1 = List.seq 0 n /\
+    List.length f2 = h /\ List.length f1 = (n - h)%coq_nat /\ (0 < h)%coq_nat /\ (h < n)%coq_nat.
+Proof. exact: kfold_first_spec. Qed.
+Print Assumptions C10_kfold_first_split.
+
+Theorem C10_kfold_h_is_ceiling :
+  forall n k : nat, (2 <= k)%coq_nat -> (k <= n)%coq_nat ->
+    (n <= kfold_h n k * k)%coq_nat /\ (kfold_h n k * k < n + k)%coq_nat /\
+    (0 < kfold_h n k)%coq_nat /\ (kfold_h n k < n)%coq_nat.
+Proof. exact: kfold_h_spec. Qed.
+Print Assumptions C10_kfold_h_is_ceiling.
+
+(* X[fold_idx]: row i of the fold matrix is row fold_idx[i] of the data *)
+Theorem C10_take_rows :
+  forall (F : rcfType) n q (idx : seq nat) (A : 'M[F]_(n, q)) (i : 'I_(size idx)) (r : 'I_n) j,
+    nth 0%N idx i = r -> take_rows idx A i j = A r j.
+Proof. exact: take_rowsE. Qed.
+Print Assumptions C10_take_rows.
+
+(* for a >= 0 the explicit regularised fit is unique ... *)
+Theorem C10_explicit_fit_unique :
+  forall (F : rcfType) (m p k t : nat) (U : 'M[F]_(m, k)) (sr : 'cV[F]_k) (V : 'M[F]_(p, k))
+         (y : 'M[F]_(m, t)) (a : F) (W W' : 'M[F]_(p, t)),
+    0 <= a -> reg_solution U sr V y a W -> reg_solution U sr V y a W' -> W' = W.
+Proof. exact: reg_solution_inj. Qed.
+Print Assumptions C10_explicit_fit_unique.
+
+(* ... and exists, for every grid entry, on fold 1, fold 2 and the full data *)
+Theorem C10_explicit_fit_exists :
+  forall (F : rcfType) (a : r2f_data F) (q : r2f_oracles a) (w : r2f_params F (a_t a))
+         (r : r2f_result F (a_t a) (a_p a) (a_nn a)),
+    data_hyps q w -> fit_mx q w = inr r ->
+    forall j, (j < size (p_alphas w))%N ->
+    let al := scaled_alpha q w (nth 0 (p_alphas w) j) in
+    [/\ exists W1', explicit_fit (q_U1 q) (q_S1 q) (q_V1 q) (y_fold1 a) (p_method w == 1%N) (p_rcond w) al W1',
+        exists W2', explicit_fit (q_U2 q) (q_S2 q) (q_V2 q) (y_fold2 a) (p_method w == 1%N) (p_rcond w) al W2'
+      & exists W', explicit_fit (q_U q) (q_S q) (q_V q) (a_y a) (p_method w == 1%N) (p_rcond w) al W'].
+Proof. exact: fit_explicit_exists. Qed.
+Print Assumptions C10_explicit_fit_exists.
+
+(* THE cv clause over the data: for every grid entry j, cv_values_[j] equals the mean of the
+   scorer evaluated on (truth = y[fold2], prediction = X[fold2] W1') and
+   (y[fold1], X[fold1] W2') for ANY explicit regularised fits W1' on the rows of fold 1 and W2'
+   on the rows of fold 2 with the scaled parameter
+   [scaled_alpha] = alpha (absolute) resp. alpha * max(s_fold1[0], s_fold2[0]) (relative) *)
+Theorem C10_fit_cv_values_explicit :
+  forall (F : rcfType) (a : r2f_data F) (q : r2f_oracles a) (w : r2f_params F (a_t a))
+         (r : r2f_result F (a_t a) (a_p a) (a_nn a)),
+    data_hyps q w -> fit_mx q w = inr r ->
+    forall j (W1' W2' : 'M[F]_(a_p a, a_t a)), (j < size (p_alphas w))%N ->
+    let al := scaled_alpha q w (nth 0 (p_alphas w) j) in
+    explicit_fit (q_U1 q) (q_S1 q) (q_V1 q) (y_fold1 a) (p_method w == 1%N) (p_rcond w) al W1' ->
+    explicit_fit (q_U2 q) (q_S2 q) (q_V2 q) (y_fold2 a) (p_method w == 1%N) (p_rcond w) al W2' ->
+    nth 0 (res_cv r) j =
+    (p_scorer w (y_fold2 a) (X_fold2 a *m W1') + p_scorer w (y_fold1 a) (X_fold1 a *m W2')) / 2%:R.
+Proof. exact: fit_cv_values_explicit. Qed.
+Print Assumptions C10_fit_cv_values_explicit.
+
+(* one cv value per alpha; alpha_ is the FIRST grid value with the maximal cv value,
+   best_score_ that value *)
+Theorem C10_fit_selection :
+  forall (F : rcfType) (a : r2f_data F) (q : r2f_oracles a) (w : r2f_params F (a_t a))
+         (r : r2f_result F (a_t a) (a_p a) (a_nn a)),
+    data_hyps q w -> fit_mx q w = inr r ->
+    let b := argmax (rops F) (res_cv r) in
+    size (res_cv r) = size (p_alphas w) /\
+    [/\ (b < size (p_alphas w))%N,
+        res_alpha r = nth 0 (p_alphas w) b, res_best r = nth 0 (res_cv r) b,
+        forall j, (j < size (p_alphas w))%N -> nth 0 (res_cv r) j <= nth 0 (res_cv r) b
+      & forall j, (j < b)%N -> nth 0 (res_cv r) j < nth 0 (res_cv r) b].
+Proof. exact: fit_selection. Qed.
+Print Assumptions C10_fit_selection.
+
+(* coef_ is the transpose of ANY explicit regularised fit on the full data for the selected
+   scaled alpha, and predict(Xnew) = Xnew times it *)
+Theorem C10_fit_coef_explicit :
+  forall (F : rcfType) (a : r2f_data F) (q : r2f_oracles a) (w : r2f_params F (a_t a))
+         (r : r2f_result F (a_t a) (a_p a) (a_nn a)),
+    data_hyps q w -> fit_mx q w = inr r ->
+    forall W' : 'M[F]_(a_p a, a_t a),
+    let b := argmax (rops F) (res_cv r) in
+    let al := scaled_alpha q w (nth 0 (p_alphas w) b) in
+    explicit_fit (q_U q) (q_S q) (q_V q) (a_y a) (p_method w == 1%N) (p_rcond w) al W' ->
+    res_coef r = W'^T /\ res_predict r = a_Xnew a *m W'.
+Proof. exact: fit_coef_explicit. Qed.
+Print Assumptions C10_fit_coef_explicit.
+
+(* the DEFAULT fold choice (cv=None, shuffle=True) and shuffled KFold objects: for the
+   permutation [perm] of the sample indices drawn by the random state (the only oracle input)
+   the first yield is a partition of the samples, fold 2 = the first h = ceil(n/k) entries of the
+   permutation, fold 1 = the other samples, of sizes h and n - h, both in ascending order
+   (filters of 0..n-1, as produced by sklearn's boolean test masks) *)
+From Coq Require Import Permutation.
+From Verif Require Import Ridge2FoldShuffle Ridge2FoldShuffleP.
+Theorem C10_kfold_shuffled_split :
+  forall (n k : nat) (perm : list nat),
+    (2 <= k)%coq_nat -> (k <= n)%coq_nat -> Permutation perm (List.seq 0 n) ->
+    let h := kfold_h n k in
+    let f1 := fst (kfold_first_shuffled n k perm) in
+    let f2 := snd (kfold_first_shuffled n k perm) in
+    Permutation (List.app f2 f1) (List.seq 0 n) /\
+    (forall i, List.In i f2 <-> List.In i (List.firstn h perm)) /\
+    (forall i, List.In i f1 <-> (i < n)%coq_nat /\ ~ List.In i (List.firstn h perm)) /\
+    List.length f2 = h /\ List.length f1 = (n - h)%coq_nat /\
+    (exists g, f2 = List.filter g (List.seq 0 n)) /\ (exists g, f1 = List.filter g (List.seq 0 n)).
+Proof. exact: kfold_first_shuffled_spec. Qed.
+Print Assumptions C10_kfold_shuffled_split.
+
+(* how far the rank-truncated matrix of the theorems is from the data matrix:
+   |X - Xr|_F^2 <= k * thr^2 with thr = rcond (Tikhonov) resp. max(rcond, alpha) (cut-off) *)
+Theorem C10_truncation_error :
+  forall (F : rcfType) (m p k : nat) (U : 'M[F]_(m, k)) (V : 'M[F]_(p, k)) (s : 'cV[F]_k),
+    U^T *m U = 1%:M -> V^T *m V = 1%:M -> (forall i, 0 <= s i ord0) ->
+    forall cutoff (rcond alpha : F), 0 <= rcond ->
+    fn2 (U *m diag_mx s^T *m V^T - U *m diag_mx (strunc cutoff rcond alpha s)^T *m V^T)
+    <= k%:R * thr cutoff rcond alpha ^+ 2.
+Proof. exact: trunc_error. Qed.
+Print Assumptions C10_truncation_error.
+
+(* non-vacuity of the data-level theorems: over every real closed field there is a data set
+   with the model's own KFold(2) split, a relative grid and the cut-off method that meets
+   [data_hyps], is accepted by the guards, and has a fold whose singular value is cut *)
+Example C10_fit_nonvacuous :
+  forall F : rcfType, exists (a : r2f_data F) (q : r2f_oracles a) (w : r2f_params F (a_t a)),
+    [/\ data_hyps q w, exists r, fit_mx q w = inr r, a_spec a = CvKFold 2, p_atype w = 1%N
+      & exists i, q_S1 q i ord0 <= p_rcond w].
+Proof.
+  move=> F; exists (fx_a F), (fx_q F), (fx_w F); split=> //.
+  - exact: fx_hyps.
+  - exact: fx_fit.
+  - exact: fx_cut.
+Qed.
